@@ -1167,23 +1167,24 @@ class Simulation:
             if not self._computed:
                 self.compute()
 
-            # Check if weights are stored already. (weights are currently
-            # simply 1/std^2; but might change in the future).
-            if 'weights' not in self.data.keys():
+            # Get the weights from the current noise model. (Weights are
+            # currently simply 1/std^2; but might change in the future.)
+            # They are stored with the data of the survey; weights found
+            # there may stem from an earlier noise model or simulation.
 
-                # Get standard deviation, raise warning if not set.
-                std = self.survey.standard_deviation
-                if std is None:
-                    raise ValueError(
-                        "Either `noise_floor` or `relative_error` or both "
-                        "must be provided (>0) to compute the "
-                        "`standard_deviation`. It can also be set directly "
-                        "(same shape as data). The standard deviation is "
-                        "required to compute the misfit."
-                    )
+            # Get standard deviation, raise warning if not set.
+            std = self.survey.standard_deviation
+            if std is None:
+                raise ValueError(
+                    "Either `noise_floor` or `relative_error` or both "
+                    "must be provided (>0) to compute the "
+                    "`standard_deviation`. It can also be set directly "
+                    "(same shape as data). The standard deviation is "
+                    "required to compute the misfit."
+                )
 
-                # Store weights
-                self.data['weights'] = std**-2
+            # Store weights
+            self.data['weights'] = std**-2
 
             # Calculate and store residual.
             residual = self.data.synthetic - self.data.observed
